@@ -85,6 +85,14 @@ impl Parser {
                 }
 
                 self.consume_semicolon()?;
+                // `e` NEWLINE `}` (the newline is an inserted semicolon) or `e; }`: the last
+                // expression is still the block's value, as it is for a function body
+                while self.match_token(&TokenKind::Semicolon) {}
+                if self.check(&TokenKind::RBrace) {
+                    self.consume(&TokenKind::RBrace, "}")?;
+
+                    return Ok(expr);
+                }
                 let span = expr.span;
                 stmts.push(Stmt::new(StmtKind::Expression(expr), span));
             } else {
